@@ -17,6 +17,8 @@ func checkC05(r *Report, p *Program) {
 	r.NotDecided = "containment, removal, preservation, order preservation, idempotence and no-panic over all JSON triples."
 	r05_1(r, p)
 	vacuousAssertGuards(r, p, "R05.2")
+	// what ApplyUpdate's helpers touch are private copies: the objects handed in (observed child from the cache, the merge result about to be sent) are not edited behind the caller's back — shared with C17
+	r17_1(r, p)
 	r05_3(r, p)
 	r05_4(r, p)
 	r05_5(r, p)
@@ -130,6 +132,45 @@ func vacuousAssertGuards(r *Report, p *Program, rule string) {
 					_ = isNil
 					if _, isP := v.(*ssa.Parameter); isP && (E(v) == "p2" || E(v) == "p3") {
 						good++
+					}
+				}
+			}
+		}
+		// each guard tests the operand of ITS OWN assertion: `x, ok := V.(T); if !ok && W != nil` needs W == V
+		for _, b := range m.Blocks {
+			if len(b.Instrs) == 0 {
+				continue
+			}
+			iff, isIf := b.Instrs[len(b.Instrs)-1].(*ssa.If)
+			if !isIf {
+				continue
+			}
+			okl := engine.CondLit(iff.Cond, true)
+			ex, isE := okl.Cond.(*ssa.Extract)
+			if !isE || ex.Index != 1 {
+				continue
+			}
+			ta, isTA := ex.Tuple.(*ssa.TypeAssert)
+			if !isTA || !ta.CommaOk {
+				continue
+			}
+			if _, isP := ta.X.(*ssa.Parameter); !isP {
+				continue
+			}
+			// successor taken when the assertion failed
+			fail := b.Succs[1]
+			if !okl.Pos {
+				fail = b.Succs[0]
+			}
+			if len(fail.Instrs) == 0 {
+				continue
+			}
+			if if2, isIf2 := fail.Instrs[len(fail.Instrs)-1].(*ssa.If); isIf2 {
+				l2 := engine.CondLit(if2.Cond, true)
+				if v, _, isT := l2.NilTest(); isT {
+					if _, isP2 := v.(*ssa.Parameter); isP2 && !engine.SameValue(v, ta.X) {
+						good = -100
+						r.Check(rule, FK(m)+"[clash-guard-operand="+E(ta.X)+"]", p.InstrPos(if2), false, "", "the type-clash guard of the assertion on "+E(ta.X)+" tests "+E(v)+" for nil instead: a non-nil "+E(ta.X)+" of the wrong type is not reported when "+E(v)+" is nil (and a nil one is when it is not)")
 					}
 				}
 			}
